@@ -394,6 +394,11 @@ func (s *Sim) Park(site string) {
 		return
 	}
 	name := s.curName()
+	if name == "sched" {
+		// the scheduler's own goroutine (world set-up and final oracles run on it, sometimes
+		// calling instrumented code directly) is never suspended: there is nobody to release it
+		return
+	}
 	o := &op{label: name + "|" + site, ch: make(chan struct{})}
 	raceOff()
 	s.mu.Lock()
